@@ -12,6 +12,7 @@ import (
 	"path/filepath"
 	"runtime"
 	"sort"
+	"strings"
 	"sync"
 	"sync/atomic"
 
@@ -114,6 +115,48 @@ func C20(run *hx.Run) {
 	parseRef := map[string]parseOut{}
 	for _, s := range parseInputs {
 		parseRef[s] = parseOnce(s)
+	}
+
+	// nested result sets on ONE database/sql connection / transaction: every statement has its own handle
+	{
+		ctx := context.Background()
+		nested := func(kind string, q func(string) (*gosql.Rows, error)) {
+			outer, err := q("SELECT id FROM t_alias")
+			if err != nil {
+				run.Violation("C20/nested-cursors/"+kind+"/outer", "outer query failed: "+err.Error(), nil)
+				return
+			}
+			defer outer.Close()
+			n := 0
+			for outer.Next() && n < 5 {
+				n++
+				inner, err := q("SELECT * FROM t_plain")
+				if err != nil {
+					run.Violation("C20/nested-cursors/"+kind, fmt.Sprintf("a second result set on the same %s while the first is open: %v (alone: %s)", kind, err, sqlRef["SELECT * FROM t_plain"]), nil)
+					return
+				}
+				cnt := 0
+				for inner.Next() {
+					cnt++
+				}
+				ierr := inner.Err()
+				inner.Close()
+				run.Eval(1)
+				if want := sqlRef["SELECT * FROM t_plain"]; ierr != nil || !strings.HasPrefix(want, fmt.Sprintf("%d rows ", cnt)) {
+					run.Violation("C20/nested-cursors/"+kind+"/result", fmt.Sprintf("inner result set on the same %s: %d rows err=%v, alone: %s", kind, cnt, ierr, want), nil)
+					return
+				}
+			}
+			run.See("nested_cursors", kind)
+		}
+		if conn, err := pool.Conn(ctx); err == nil {
+			nested("sql.Conn", func(q string) (*gosql.Rows, error) { return conn.QueryContext(ctx, q) })
+			conn.Close()
+		}
+		if tx, err := pool.BeginTx(ctx, nil); err == nil {
+			nested("sql.Tx", func(q string) (*gosql.Rows, error) { return tx.QueryContext(ctx, q) })
+			tx.Rollback()
+		}
 	}
 
 	var seqNo int64
